@@ -518,7 +518,8 @@ def report(prop, tier, seed, contracts, results, args, wall):
                     else:
                         violations.append(entry)
                 elif rep.get("not_replayable"):
-                    in_ledger = ob_id in set(ledger_all.get(prop, {}).get(tier, []))
+                    # discharged on the unchanged tree in ANY tier (an obligation id means the same in both)
+                    in_ledger = any(ob_id in set(v) for v in ledger_all.get(prop, {}).values())
                     if k:
                         known_hits.append((k, entry))
                     elif in_ledger:
